@@ -14,6 +14,18 @@ Theorem normalize_whitespace_spec : forall s, normalize_whitespace s = join [c_s
 Proof. exact normalize_whitespace_words. Qed.
 Print Assumptions normalize_whitespace_spec.
 
+(* normalisation keeps the words (maximal runs of non-whitespace characters, each non-empty) exactly,
+   and normalising again changes nothing: a value already read is a fixed point *)
+Theorem normalize_whitespace_keeps_words : forall s,
+  split_ws (normalize_whitespace s) = split_ws s /\ Forall is_word (split_ws s).
+Proof. intros s. split; [exact (split_ws_normalized s)|exact (split_ws_words s)]. Qed.
+Print Assumptions normalize_whitespace_keeps_words.
+
+Theorem normalize_whitespace_idempotent : forall s,
+  normalize_whitespace (normalize_whitespace s) = normalize_whitespace s.
+Proof. exact normalize_whitespace_idem. Qed.
+Print Assumptions normalize_whitespace_idempotent.
+
 (* VALUE ROUND TRIP, one part: after any amount of whitespace, a braced value {body} or a
    quoted value "body" -- body brace-balanced, nested at most 100 deep, and for the quoted
    form without a double quote outside braces -- is read back as exactly body, whatever
